@@ -184,8 +184,39 @@ def check_selection(case, tree, result, fails, tag):
                               dict(where, pair=p, chosen=chosen, available=available)))
 
 
+def make_pairs256(seed):
+    """a parent with exactly 256 leaf pairs to discriminate (two children with 16 leaves each): pair
+    indices of its own table reach 255, the largest value of the narrowest integer type; the first and
+    the last pair of the parent are marked by private genes only"""
+    rng = random.Random(seed)
+    a = [f'a{i:02d}' for i in range(16)]
+    b = [f'b{i:02d}' for i in range(16)]
+    z = [f'z{i}' for i in range(4)]
+    data = {'hierarchy': ['class', 'subclass', 'cluster'],
+            'class': {'A': ['s0', 's1'], 'B': ['s2']},
+            'subclass': {'s0': list(a), 's1': list(b), 's2': list(z)}}
+    leaves = a + b + z
+    data['cluster'] = {lf: [] for lf in leaves}
+    n_genes = 10
+    genes = [f'g{i}' for i in range(n_genes)]
+    pairs = list(itertools.combinations(sorted(leaves), 2))
+    up = np.zeros((len(pairs), n_genes), dtype=bool)
+    down = np.zeros((len(pairs), n_genes), dtype=bool)
+    private = {('a00', 'b00'): (6, 7), ('a15', 'b15'): (8, 9)}
+    for p, pr in enumerate(pairs):
+        if pr in private:
+            for g in private[pr]:
+                up[p, g] = True
+            continue
+        for g in range(6):
+            if rng.random() < 0.3:
+                (up if rng.random() < 0.5 else down)[p, g] = True
+    return dict(seed=f'pairs256-{seed}', tree=data, leaves=leaves, genes=genes, pairs=pairs, up=up, down=down,
+                query=list(genes) + ['q_only_1'], n_per=3, override=None)
+
+
 def one_case(seed):
-    case = make_case(seed)
+    case = make_pairs256(int(seed[9:])) if isinstance(seed, str) and seed.startswith('pairs256-') else make_case(seed)
     fails, crashed = [], []
     n_sel = 0
     with scratch('verif_c12_') as wd, quiet(), no_stderr():
@@ -230,9 +261,10 @@ def run(tier='quick', seed=0, jobs=1):
     n = 50 if tier == 'quick' else 500
     row = new_row(FN, 'seeded-random end-to-end (real select_all_markers vs census from the generated tables)',
                   '<= 4 leaves (9 tree shapes incl. single-child parents), <= 6 genes, targets 1..3, per-parent '
-                  'overrides, query subsets + non-reference genes, 1/2/3 workers, 3 large-parent thresholds',
+                  'overrides, query subsets + non-reference genes, 1/2/3 workers, 3 large-parent thresholds; one 36-leaf case '
+                  'whose parent has exactly 256 pairs',
                   CLAUSES)
-    seeds = [seed * 100003 + i for i in range(n)]
+    seeds = [f'pairs256-{seed}'] + [seed * 100003 + i for i in range(n)]
     for (st, res), s in zip(parallel_map(one_case, seeds, jobs=min(jobs, 4)), seeds):
         row['cases'] += 1
         if st != 'ok':
